@@ -130,6 +130,9 @@ def check_texts_nonempty(ctx):
             "the invariant behind the DEF exemption for get_leading_spaces no longer holds: " + "; ".join(problems))
 
 
+from . import c16  # noqa: E402
+
+
 def run(ctx):
   ix = ctx.ix
   ty = Typer(ix)
@@ -163,3 +166,7 @@ def run(ctx):
   check_explicit_raises(ctx)
   ng = lint.namedtuple_attrs(ctx, common.mods(ctx, ["ttconv.stl.datafile"]), rule="LINT-g")
   ctx.floor("LINT-g", "namedtuple attribute accesses", ng, 30)
+  # style processors called outside isd.py assert on already-computed dependencies (AssertionError / AttributeError otherwise)
+  nco = c16.check_compute_order(ctx, list(ix.funcs.values()))
+  ctx.floor("ORD-compute", "external StyleProcessors.*.compute call sites", nco, 1)
+  common.check_history_independence(ctx, MODS)
